@@ -29,7 +29,7 @@ func catch(f func()) (p any) {
 
 func TestStreamReadHostile(t *testing.T) {
 	const check = "stream_read_hostile"
-	stats.Rule(check, "every stream.Read* helper that trusts a length/count prefix (ReadBytes with a hostile length argument, ReadBytesWithSize, ReadObjectWithSize, ReadCollection, PeekSize; all four prefix widths incl. uint64 values >= 2^63) is called on a reader holding the prefix (hostile constant or drawn) followed by 0..40 bytes, through bytes.Reader and iotest.OneByteReader; oracle: no panic, a successful return is well-formed (exactly the denoted number of bytes / callbacks / a non-negative size equal to the prefix), bytes allocated <= 1 MiB + 2 KiB * len(input), ReadCollection invokes its callback at most (bytes remaining)+1 times when every callback consumes one byte. Lengths are capped at 2^30 for 4-byte prefixes only through the cap on allocation (a regression allocates at most 4 GiB of untouched pages); for the 8-byte prefix all values are used. Distinct by (helper, prefix width, prefix value, payload length); non-trivial = prefix denotes more than the payload")
+	stats.Rule(check, "every stream.Read* helper that trusts a length/count prefix (ReadBytes with a hostile length argument, ReadBytesWithSize, ReadObjectWithSize, ReadCollection, PeekSize, and stream.Skip/GoTo by a length from the input followed by ByteReader.BytesRead; all four prefix widths incl. uint64 values >= 2^63) is called on a reader holding the prefix (hostile constant or drawn) followed by 0..40 bytes, through bytes.Reader and iotest.OneByteReader; oracle: no panic, a successful return is well-formed (exactly the denoted number of bytes / callbacks / a non-negative size equal to the prefix; BytesRead within 0..len(input)), bytes allocated <= 1 MiB + 2 KiB * len(input), ReadCollection invokes its callback at most (bytes remaining)+1 times when every callback consumes one byte. Lengths are capped at 2^30 for 4-byte prefixes only through the cap on allocation (a regression allocates at most 4 GiB of untouched pages); for the 8-byte prefix all values are used. Distinct by (helper, prefix width, prefix value, payload length); non-trivial = prefix denotes more than the payload")
 	rapid.Check(t, func(rt *rapid.T) {
 		w := rapid.SampledFrom([]int{1, 2, 4, 8}).Draw(rt, "w")
 		var pv uint64
@@ -48,7 +48,7 @@ func TestStreamReadHostile(t *testing.T) {
 		pre := make([]byte, 8)
 		binary.LittleEndian.PutUint64(pre, pv)
 		input := append(append([]byte{}, pre[:w]...), payload...)
-		helper := rapid.SampledFrom([]string{"ReadBytesWithSize", "ReadObjectWithSize", "ReadCollection", "PeekSize", "ReadBytes"}).Draw(rt, "helper")
+		helper := rapid.SampledFrom([]string{"ReadBytesWithSize", "ReadObjectWithSize", "ReadCollection", "PeekSize", "ReadBytes", "SkipThenBytesRead"}).Draw(rt, "helper")
 		oneByte := rapid.Bool().Draw(rt, "oneByteReader")
 		mk := func() io.Reader {
 			if oneByte {
@@ -94,6 +94,22 @@ func TestStreamReadHostile(t *testing.T) {
 						if err == nil && (n < 0 || uint64(n) != pv) {
 							err = fmt.Errorf("HARNESS: PeekSize returned %d for a prefix of %d", n, pv)
 						}
+					}
+				case "SkipThenBytesRead":
+					// a FromBytes-style decoder built from the helpers: skip a section whose length comes from the input (Skip or
+					// GoTo), tolerate the missing tail, report ByteReader.BytesRead as the number of consumed bytes
+					br := stream.NewByteReader(input)
+					if _, e := stream.ReadBytes(br, w); e == nil {
+						off := int64(pv & (1<<62 - 1))
+						if oneByte {
+							_, _ = stream.GoTo(br, int64(w)+off)
+						} else {
+							_, _ = stream.Skip(br, off)
+						}
+						_, _ = stream.Read[uint8](br)
+					}
+					if n := br.BytesRead(); n < 0 || n > len(input) {
+						err = fmt.Errorf("HARNESS: ByteReader.BytesRead reports %d consumed bytes for an input of %d bytes", n, len(input))
 					}
 				case "ReadBytes":
 					// the length argument usually comes from an earlier prefix: hand the hostile value over directly
